@@ -102,8 +102,20 @@ func isConfig(v ssa.Value, recv ssa.Value, d int) bool {
 		if args, ok := core.IsBuiltinCall(x, "len"); ok {
 			return isConfig(args[0], recv, d+1)
 		}
+	case *ssa.MakeSlice:
+		return isConfig(x.Len, recv, d+1) // len(make([]byte, n)) is n
 	}
 	return false
+}
+
+// lenOfMake: len(make([]T, n)) -> n (through a slice of the whole buffer); otherwise v.
+func lenOfMake(v ssa.Value) ssa.Value {
+	if a, ok := lenArg(v); ok {
+		if mk, ok := core.Unwrap(a).(*ssa.MakeSlice); ok {
+			return mk.Len
+		}
+	}
+	return v
 }
 
 func runC08(c *core.Ctx) {
@@ -599,10 +611,10 @@ func runC08(c *core.Ctx) {
 					okb := false
 					for _, cm := range falseAt(p, in) {
 						// known false: X < Y  (i.e. X >= Y holds)
-						if cm.Op == token.LSS && core.SameValue(cm.X, b.X) && sameConfigExpr(cm.Y, b.Y) {
+						if cm.Op == token.LSS && sameLenExpr(cm.X, b.X) && sameConfigExpr(cm.Y, b.Y) {
 							okb = true
 						}
-						if cm.Op == token.GTR && core.SameValue(cm.Y, b.X) && sameConfigExpr(cm.X, b.Y) {
+						if cm.Op == token.GTR && sameLenExpr(cm.Y, b.X) && sameConfigExpr(cm.X, b.Y) {
 							okb = true
 						}
 					}
@@ -645,6 +657,7 @@ func sameLenExpr(a, b ssa.Value) bool {
 // sameConfigExpr: structurally equal expressions over field loads / len / conversions.
 func sameConfigExpr(a, b ssa.Value) bool {
 	a, b = stripConv(a), stripConv(b)
+	a, b = stripConv(lenOfMake(a)), stripConv(lenOfMake(b))
 	if core.SameValue(a, b) {
 		return true
 	}
